@@ -13,6 +13,8 @@ import (
 	"go.dedis.ch/kyber/v3/util/random"
 	"go.dedis.ch/onet/v3/network"
 	"go.dedis.ch/protobuf"
+
+	"verifharness/cmd/c03/other"
 )
 
 // ---- message shapes of the harness ------------------------------------------
@@ -64,6 +66,31 @@ type Sentinel struct{ Seq uint32 }
 type Ghost struct{ X uint32 }
 
 var ed25519 = suites.MustFind("Ed25519")
+var p256 = suites.MustFind("P256")
+
+// curSuite is the suite of the connections / decoder calls of the case being
+// run (Ed25519 unless the input says otherwise).
+var curSuite network.Suite = ed25519
+
+func suiteByName(n string) network.Suite {
+	if n == "P256" {
+		return p256
+	}
+	return ed25519
+}
+
+// ownConstructors: what network.DefaultConstructors is documented to return for
+// the suite, built by the harness itself for its oracle.
+func ownConstructors(suite network.Suite) protobuf.Constructors {
+	c := make(protobuf.Constructors)
+	c[pointT] = func() interface{} { return suite.Point() }
+	c[scalarT] = func() interface{} { return suite.Scalar() }
+	return c
+}
+
+// idCollisions lists registered types whose id equals that of a type registered before.
+var idCollisions []string
+var registeredIDs [][]byte
 var pairing = bn256.NewSuite()
 
 type regType struct {
@@ -82,10 +109,16 @@ func registerTypes() {
 	}{
 		{"inner", &Inner{}}, {"nested", &Nested{}}, {"crypto", &Crypto{}},
 		{"blob", &Blob{}}, {"empty", &Empty{}}, {"sentinel", &Sentinel{}},
+		{"otherblob", &other.Blob{}}, // same bare name as Blob, other package
 	} {
 		id := network.RegisterMessage(m.v)
 		t := reflect.TypeOf(m.v).Elem()
 		regTypes = append(regTypes, regType{m.name, t, id})
+		registeredIDs = append(registeredIDs, append([]byte{}, id[:]...))
+		if prev, dup := idToType[id]; dup && prev != t {
+			idCollisions = append(idCollisions, fmt.Sprintf("%v and %v share id %x", prev, t, id[:]))
+			continue // the table keeps the first: each type's buffers are judged by its own type below
+		}
 		idToType[id] = t
 	}
 	idToType[network.ServerIdentityType] = reflect.TypeOf(network.ServerIdentity{})
@@ -348,6 +381,15 @@ func genValue(vs *ValSpec, ctx *genCtx) interface{} {
 		b := make([]byte, vs.Size)
 		rng.Read(b)
 		return &Blob{Data: b}
+	case "otherblob":
+		return &other.Blob{N: boundedInt64(rng), Note: genString(rng, 4+vs.Size)}
+	case "cryptop256":
+		st := random.New(rng)
+		c := &Crypto{P: p256.Point().Pick(st), S: p256.Scalar().Pick(st)}
+		for i := rng.Intn(3); i > 0; i-- {
+			c.Ps = append(c.Ps, p256.Point().Pick(st))
+		}
+		return c
 	case "empty":
 		return &Empty{}
 	case "sentinel":
@@ -451,9 +493,16 @@ func canonical(v interface{}) ([]byte, error) {
 	}
 	var id network.MessageTypeID
 	found := false
-	for k, rt := range idToType {
-		if rt == t {
-			id, found = k, true
+	for _, r := range regTypes {
+		if r.typ == t {
+			id, found = r.id, true
+		}
+	}
+	if !found {
+		for k, rt := range idToType {
+			if rt == t {
+				id, found = k, true
+			}
 		}
 	}
 	if !found {
@@ -475,6 +524,11 @@ func harnessIDOf(v interface{}) (network.MessageTypeID, bool) {
 	t := reflect.TypeOf(v)
 	if t.Kind() == reflect.Ptr {
 		t = t.Elem()
+	}
+	for _, r := range regTypes {
+		if r.typ == t {
+			return r.id, true
+		}
 	}
 	for k, rt := range idToType {
 		if rt == t {
@@ -501,7 +555,7 @@ func oracle(buf []byte) (reg bool, val interface{}, err error) {
 			val, err = nil, fmt.Errorf("protobuf panic: %v", r)
 		}
 	}()
-	if e := protobuf.DecodeWithConstructors(buf[16:], ptr, network.DefaultConstructors(ed25519)); e != nil {
+	if e := protobuf.DecodeWithConstructors(buf[16:], ptr, ownConstructors(curSuite)); e != nil {
 		return true, nil, e
 	}
 	return true, ptr, nil
